@@ -139,7 +139,7 @@ def perturb(rng, pattern_src):
         cs = [n for n in nodes if isinstance(n, ast.Constant)]
         if cs:
             c = rng.choice(cs)
-            c.value = rng.choice([v for v in (0, 1, 2, 7, 1.0, True, False, None, 'a', 'zz', '') if not (type(v) is type(c.value) and v == c.value)])
+            c.value = rng.choice([v for v in (0, 1, 2, 7, 1.0, True, False, None, 'a', 'zz', '', b'ab', b'a', 2j, 7j, ...) if not (type(v) is type(c.value) and v == c.value)])
             done = True
     elif kind in ('ident', 'fresh-ident'):
         ns = [n for n in nodes if isinstance(n, ast.Name) and PLACEHOLDER_FREE(n.id)]
